@@ -151,6 +151,14 @@ def payloads():
     # definitions and assignment
     add('def-forms', [D('a', L(1)), D('b', L(2), mut=False), D('c', L(3), INT, ann=True), D('d', L(1), FLOAT, ann=True), P(V('a')), P(V('b')), P(V('c')), P(V('d', FLOAT))])
     add('def-tuple', [{'k': 'deftup', 'ns': ['x', 'y'], 'ts': [INT, STR], 'mut': True, 'e': {'k': 'tup', 'es': [L(1), L('s')], 't': '(Int, Str)'}}, P(V('x')), P(V('y', STR))])
+    # nested tuple targets (the components are only usable as arguments: the checker gives them no type of their own)
+    f_id = FUN('idf', [('a', INT, None)], INT, [VAL(B('+', V('a'), L(0)))])
+    tup3 = {'k': 'tup', 'es': [L(3), {'k': 'tup', 'es': [L(4), L(5)], 't': '(Int, Int)'}], 't': '(Int, (Int, Int))'}
+    add('def-nested-tuple', [{'k': 'deftup', 'ns': ['xo', ['x', 'xp']], 'ts': [INT, INT, INT], 'mut': True, 'annt': '(Int, (Int, Int))', 'e': tup3},
+                             P(CALL('idf', V('x'))), P(CALL('idf', V('xp'))), P(CALL('idf', V('xo')))], funs=[f_id])
+    tup3b = {'k': 'tup', 'es': [{'k': 'tup', 'es': [L(6), L(7)], 't': '(Int, Int)'}, L(8)], 't': '((Int, Int), Int)'}
+    add('def-nested-tuple-first', [{'k': 'deftup', 'ns': [['x', 'xp'], 'xo'], 'ts': [INT, INT, INT], 'mut': False, 'annt': '((Int, Int), Int)', 'e': tup3b},
+                                   P(CALL('idf', V('x'))), P(CALL('idf', V('xp'))), P(CALL('idf', V('xo')))], funs=[f_id])
     add('reassign', [D('a', L(1)), A('a', B('+', V('a'), L(5))), P(V('a')), A('a', L(0)), P(V('a'))])
     for op in ['+=', '-=', '*=']:
         add(f'aug{op}', [D('a', L(6)), {'k': 'aug', 'n': 'a', 'op': op, 'e': L(3)}, P(V('a')), {'k': 'aug', 'n': 'a', 'op': op, 'e': B('+', V('a'), L(1))}, P(V('a'))])
@@ -235,6 +243,24 @@ def payloads():
                                  h(CALL('outerf', L(1)), [('E1', 'err', [P(L('E1 at top'))]), ('E3', 'err', [P(L('E3 at top'))])])], **EX)
     add('handle-nested', [h(CALL('risky', L(3)), [('E1', 'err', [P(L('outer arm')), h(CALL('risky', L(-2)), [('E3', 'err2', [P(L('inner E3'))]), ('E1', 'err2', [P(L('inner E1'))])])]),
                                                    ('E3', 'err', [P(L('outer E3'))])])], **EX)
+    # bodies that ARE one compound statement (no enclosing block when printed in the attached layout): the function ends by falling out of it
+    RET = lambda e: {'k': 'ret', 'e': e}
+    f_loop = FUN('firstbig', [('n', INT, None)], INT, [FOR('i', L(0), V('n'), [IF(B('>', B('*', V('i'), V('i')), L(10), BOOL), [RET(V('i'))]), P(V('i'))])])
+    f_loop1 = FUN('noisyloop', [('n', INT, None)], INT, [FOR('i', L(0), V('n'), [P(B('*', V('i'), L(3)))])])
+    add('fun-body-is-for', [P(CALL('firstbig', L(8))), P(CALL('firstbig', L(2))), P(CALL('noisyloop', L(3)))], funs=[f_loop, f_loop1])
+    f_while = FUN('countup', [('n', INT, None)], INT, [{'k': 'while', 'c': B('<', V('n'), L(3), BOOL), 'body': [P(V('n')), A('n', B('+', V('n'), L(1)))]}])
+    add('fun-body-is-while', [P(CALL('countup', L(1))), P(CALL('countup', L(7)))], funs=[f_while])
+    f_arm_loop = FUN('armloop', [('n', INT, None)], INT, [MATCH(V('n'), [(('lit', INT, 0), [VAL(B('-', L(0), L(1)))]),
+                                                                        (('wild',), [FOR('i', L(1), V('n'), [IF(B('=', V('i'), V('n'), BOOL), [RET(B('*', V('i'), L(100)))]), P(V('i'))], True)])])])
+    add('fun-body-is-match-arm-is-for', [P(CALL('armloop', L(0))), P(CALL('armloop', L(3)))], funs=[f_arm_loop])
+    f_if_loop = FUN('ifloop', [('n', INT, None)], INT, [IF(B('>', V('n'), L(1), BOOL), [FOR('i', L(0), V('n'), [P(V('i'))])], [VAL(L(7))])])
+    add('fun-body-is-if-branch-is-for', [P(CALL('ifloop', L(3))), P(CALL('ifloop', L(0)))], funs=[f_if_loop])
+    f_loop_if = FUN('looptailif', [('n', INT, None)], INT, [FOR('i', L(0), V('n'), [IF(B('>', V('i'), L(0), BOOL), [P(L('pos'))], [P(L('zero'))])]), VAL(V('n'))])
+    add('loop-body-is-if-else', [P(CALL('looptailif', L(2)))], funs=[f_loop_if])
+    f_loop_match = FUN('looptailmatch', [('n', INT, None)], INT, [FOR('i', L(0), V('n'), [MATCH(V('i'), [(('lit', INT, 0), [P(L('zero'))]), (('bind', 'm'), [P(B('*', V('m'), L(5)))])])]), VAL(V('n'))])
+    add('loop-body-is-match', [P(CALL('looptailmatch', L(3)))], funs=[f_loop_match])
+    f_handle_tail = FUN('handletail', [('k', INT, None)], INT, [h(CALL('risky', V('k')), [('E1', 'err', [VAL(B('-', L(0), L(1)))]), ('E3', 'err', [VAL(B('-', L(0), L(3)))])], bind='r'), VAL(V('r'))])
+    add('fun-handle-then-value', [P(CALL('handletail', L(3))), P(CALL('handletail', L(1))), P(CALL('handletail', L(-4)))], classes=EX['classes'], funs=EX['funs'] + [f_handle_tail])
     add('uncaught-user-exception', [P(L('before')), P(CALL('risky', L(3)))], top_only=True, **EX)
     add('uncaught-subclass', [P(L('before')), P(CALL('outerf', L(9)))], top_only=True, **EX)
     add('handle-other-propagates', [P(L('before')), h(CALL('risky', L(-1)), [('E1', 'err', [P(L('wrong arm'))])]), P(L('unreachable'))], top_only=True, **EX)
@@ -299,6 +325,9 @@ def wrap(payload, ctx):
 
 
 CONTEXTS = ['top', 'fun', 'method', 'loop', 'then', 'else', 'arm', 'handle-arm', 'fun-in-loop-in-if']
+COMPACT_PAYLOADS = ('if', 'match', 'while', 'for-list', 'nested-for', 'range..=+2/skip', 'range..-1/long', 'fun-', 'loop-body', 'handle-', 'raise-through', 'class-method-update', 'class-explicit-init',
+                    'aug+=', 'reassign', 'question-int-none', 'uncaught', 'zero-division')
+COMPACT_CONTEXTS = ['top', 'fun', 'arm', 'else', 'fun-in-loop-in-if']
 
 
 def cells():
@@ -309,4 +338,15 @@ def cells():
             if pl['top_only'] and ctx != 'top':
                 continue
             out.append((f'{name}@{ctx}', wrap(pl, ctx)))
+    # the same programs with every single-statement block attached to its header line (`def f() -> Int => for ...`,
+    # `_ => print(x)`, `if c then return x`): the parser then builds the statement itself instead of a one-statement block
+    for name, pl in payloads().items():
+        if not name.startswith(COMPACT_PAYLOADS):
+            continue
+        for ctx in COMPACT_CONTEXTS:
+            if pl['top_only'] and ctx != 'top':
+                continue
+            prog = wrap(pl, ctx)
+            prog['layout'] = 'all'
+            out.append((f'{name}@{ctx}/attached', prog))
     return out
